@@ -271,6 +271,31 @@ def zero_weight_programs():
     return progs
 
 
+def pinned_programs():
+    """Systematic: a two-variable ==/!= with a constant offset, then every variable but the first pinned by `== c` and the first one left
+    with exactly one admissible value by `!= a` constraints - one program per solution of the first constraint, each with exactly that one
+    solution (values that are illegal anyway stay in the domain). A propagator that prunes a legal value (or an encoder that forbids one) turns such a program INFEASIBLE."""
+    progs = []
+    shapes = [("v+k?w", [0, 1]), ("v-k?w", [0, 1]), ("k+v?w", [0, 1]), ("w?v+k", [0, 1]), ("v+k?w+k", [0, 1]), ("k-v?w", [0, 1]), ("v?w", [0, 1]),
+              ("v+k?w", [1, 0])]
+    for shape, idx in shapes:
+        nk = SHAPES[shape][1]
+        for doms in ([(0, 3), (1, 2)], [(1, 2), (0, 3)], [(0, 2), (0, 2)]):
+            for k0 in (1, 2):
+                ks = [k0, 0][:nk] if nk else []
+                for eq in (False, True):
+                    first = ("lin", shape, idx, ks, eq)
+                    base = {"vars": doms, "cons": [first]}
+                    sols = solutions_of(base)
+                    for (x0, y0) in sols:
+                        # pin the second variable; of the first variable's values that are LEGAL with it keep only x0 (the illegal ones stay in
+                        # the domain, so the variable is still open when the constraint is propagated)
+                        cons = [first, ("lin", "v?k", [1], [y0], True)]
+                        cons += [("lin", "v?k", [0], [a], False) for (a, b) in sols if b == y0 and a != x0]
+                        progs.append({"vars": doms, "cons": cons})
+    return progs
+
+
 def sum_programs():
     """Systematic: sum_eq / sum_le / sum_ge with 1..5 terms over 0/1 and mixed domains, targets in the interior of the reachable range."""
     progs = []
